@@ -730,3 +730,6 @@ encaps_mode_contract!(encaps__hybrid_mode_fresh_seed, true);
 // discharged: the smallest shape (1 secret x 1 component x 1 trap) did not finish in 25 min / 14 GB
 // (see DESIGN §2).  Their clauses are covered by the native bounded checks in native/src/core.
 
+
+// (a stream contract on `sign` with two rights could not be discharged: CBMC cannot bound the iteration over the
+// two-element `RevisionVec` inside `sign`; the clause is covered natively by signature__structural_tampering_is_rejected)
